@@ -2509,3 +2509,85 @@ Proof.
   - apply surjective_pairing.
   - vm_compute. reflexivity.
 Qed.
+
+(* the aligned re-allocation entry points do not validate an alignment <= sizeof(void* ) *)
+Lemma bad_alignment_realloc_refuted : exists st heap p n a off o,
+  is_power_of_two a = false /\ lookup st p <> None /\
+  snd (realloc_zero_aligned_at st heap p n a off false o) <> None.
+Proof.
+  exists [ (4096, mkBlock 32 (dirty 32) 0 20 false 0) ], 0, 4096, 100, 3, 0,
+         (mkOracles None (Some (8192, 112, dirty 112)) None).
+  vm_compute. repeat split; discriminate.
+Qed.
+
+(* ------------------------------------------------------------------------------------- *)
+(* M. the natural-alignment shortcut composed with the page geometry                        *)
+(* ------------------------------------------------------------------------------------- *)
+
+Lemma good_size_large size : MI_MEDIUM_OBJ_SIZE_MAX < size -> size <= MI_MAX_ALLOC_SIZE ->
+  MI_MAX_ALIGN_GUARANTEE < good_size size.
+Proof.
+  intros H1 H2. unfold good_size. assert (F : (size <=? MI_MEDIUM_OBJ_SIZE_MAX) = false) by (apply N.leb_gt; assumption).
+  rewrite F. change MI_PADDING_SIZE with 0. pose proof W64_val as Hw.
+  unfold MI_MAX_ALLOC_SIZE, MI_MEDIUM_OBJ_SIZE_MAX, MI_MAX_ALIGN_GUARANTEE in *.
+  rewrite wadd_small by lia. rewrite N.add_0_r.
+  pose proof (align_up_props size os_page_size_default) as P. unfold os_page_size_default in *.
+  destruct P as (P1 & _); lia.
+Qed.
+
+(* block i of a page laid out by _mi_segment_page_start_from_slice, for a request that
+   mi_malloc_is_naturally_aligned accepts, is aligned: the alignment test after the plain allocation
+   in mi_heap_malloc_zero_aligned_at_generic never fails *)
+Lemma natural_block_aligned seg idx cnt size k bs i :
+  seg mod MI_SEGMENT_SIZE = 0 -> seg + MI_SEGMENT_SIZE < W64 -> 0 < cnt -> idx + cnt <= MI_SLICES_PER_SEGMENT ->
+  k < 64 -> size <= MI_MAX_ALLOC_SIZE -> bs < W64 ->
+  malloc_is_naturally_aligned size (2 ^ k) = true ->
+  (size <= MI_MEDIUM_OBJ_SIZE_MAX -> bs = good_size size /\ 2 * bs <= cnt * MI_SEGMENT_SLICE_SIZE) ->
+  (MI_MEDIUM_OBJ_SIZE_MAX < size -> i = 0) ->
+  (fst (page_start_from_slice seg idx cnt bs) + i * bs) mod 2 ^ k = 0.
+Proof.
+  intros Hal Hw Hc Hic Hk Hs Hbs Nat Hsmall Hlarge.
+  pose proof (page_start_aligned16 seg idx cnt bs Hal Hw Hc Hic Hbs) as P16.
+  destruct (page_start_from_slice seg idx cnt bs) as [start psize] eqn:EP. cbn [fst].
+  destruct P16 as (P16 & _). change MI_MAX_ALIGN_SIZE with 16 in P16.
+  destruct (N.le_gt_cases size MI_MEDIUM_OBJ_SIZE_MAX) as [Hm|Hm].
+  - destruct (Hsmall Hm) as (Ebs & H2).
+    assert (Eg : good_size size = bin_size (mi_bin size)).
+    { apply good_size_small; [unfold MI_MEDIUM_OBJ_SIZE_MAX in *; lia|assumption]. }
+    assert (Hb : size <= MI_MEDIUM_OBJ_SIZE_MAX -> bs = bin_size (mi_bin size)) by (intros _; rewrite Ebs; exact Eg).
+    assert (Hi : MI_MEDIUM_OBJ_SIZE_MAX < size -> i = 0) by (intros C; lia).
+    destruct (min_alignment size start bs i P16 Hb Hi) as (M8 & M16 & _).
+    apply (naturally_aligned_sound size k _ Hk Nat M8 M16).
+    intros Hg. rewrite <- Ebs in *.
+    assert (Hcls : bs mod 16 = 0 \/ bs = 8).
+    { rewrite (Hb Hm). destruct (bin_align size Hm) as [(_ & B)|(_ & B & _)]; [right|left]; exact B. }
+    assert (Hpos : 0 < bs).
+    { rewrite (Hb Hm). destruct (bin_align size Hm) as [(_ & B)|(_ & _ & B)]; [rewrite B; lia|exact B]. }
+    pose proof (page_start_block_aligned seg idx cnt bs Hal Hw Hc Hic Hpos Hg Hcls H2) as PB.
+    rewrite EP in PB. cbn [fst] in PB.
+    rewrite N.add_mod by lia. rewrite PB, N.mod_mul by lia. rewrite N.add_0_l. apply N.mod_0_l. lia.
+  - specialize (Hlarge Hm). subst i. rewrite N.mul_0_l, N.add_0_r.
+    apply (naturally_aligned_sound size k start Hk Nat).
+    + lia.
+    + intros _. exact P16.
+    + intros Hg. pose proof (good_size_large size Hm Hs). lia.
+Qed.
+
+(* hence, when the answer of the lower layers is such a block, the aligned allocation takes the
+   natural path to the end and never consults the second oracle *)
+Lemma natural_path_no_fallback st heap size k zero o p u bytes :
+  k < 64 -> size <= MI_MAX_ALLOC_SIZE -> malloc_is_naturally_aligned size (2 ^ k) = true ->
+  o_ans o = Some (p, u, bytes) -> p mod 2 ^ k = 0 ->
+  malloc_zero_aligned_at_generic st heap size (2 ^ k) 0 zero o =
+    (add st p (mkBlock u (if zero then zero_all bytes else bytes) heap size zero 0), Some p, PathNatural).
+Proof.
+  intros Hk Hs Nat Ea Hp. pose proof (pow2_pos k) as H2. pose proof MAX_lt_W64 as MW.
+  unfold malloc_zero_aligned_at_generic.
+  assert (F : (MI_MAX_ALLOC_SIZE - MI_PADDING_SIZE <? size) = false).
+  { apply N.ltb_ge. change MI_PADDING_SIZE with 0. lia. }
+  rewrite F, Nat. cbn [N.eqb andb]. rewrite Ea. unfold heap_malloc_zero.
+  rewrite alloc_block_granted by lia.
+  assert (G : (N.land p (wsub (2 ^ k) 1) =? 0) = true).
+  { apply N.eqb_eq. rewrite wsub_small by lia. rewrite land_mask. exact Hp. }
+  rewrite G. reflexivity.
+Qed.
